@@ -12,6 +12,7 @@ require (
 	github.com/multiformats/go-multihash v0.2.3
 	github.com/multiformats/go-varint v0.0.7
 	github.com/ucan-wg/go-ucan v0.0.0
+	golang.org/x/crypto v0.25.0
 )
 
 require (
@@ -21,7 +22,6 @@ require (
 	github.com/multiformats/go-multicodec v0.9.0 // indirect
 	github.com/polydawn/refmt v0.89.0 // indirect
 	github.com/spaolacci/murmur3 v1.1.0 // indirect
-	golang.org/x/crypto v0.25.0 // indirect
 	golang.org/x/sys v0.22.0 // indirect
 	google.golang.org/protobuf v1.34.2 // indirect
 	lukechampine.com/blake3 v1.3.0 // indirect
